@@ -111,6 +111,20 @@ fn definitions() -> Vec<(&'static str, Vec<Stmt>, usize, bool)> {
             2,
             false,
         ),
+        // parameters inside parentheses
+        ("parameter-inside-parentheses", vec![Stmt::Def("FNA".into(), vec!["X".into()], bin(BinOp::Mul, bin(BinOp::Add, x(), int(1)), int(2)))], 1, false),
+        (
+            "two-parameters-inside-parentheses",
+            vec![Stmt::Def("FNA".into(), vec!["X".into(), "Y".into()], bin(BinOp::Mul, bin(BinOp::Sub, x(), var("Y")), bin(BinOp::Add, var("Y"), int(1))))],
+            2,
+            false,
+        ),
+        (
+            "parameter-in-nested-parentheses-and-negated",
+            vec![Stmt::Def("FNA".into(), vec!["X".into()], bin(BinOp::Sub, int(100), bin(BinOp::Mul, int(2), bin(BinOp::Sub, int(3), Expr::Neg(Box::new(x()))))))],
+            1,
+            false,
+        ),
         // FNA and FNA$ are different functions: their parameters of the same name are different variables
         (
             "same-name-other-type-same-parameter-name",
